@@ -317,7 +317,7 @@ def run(ctx):
                     ctx.ob(key, ok, 'deleg: element i of the result is the scalar law on (x[i], lower[i], upper[i]) (a scalar bound stands for its broadcast)', w, [str(e) for e in exp][:3], [str(g) for g in got][:3])
                 else:
                     vec_eq(ctx, key, p.ret, exp, 'deleg: element i of the result is the scalar law on (x[i], bounds[i]) (a scalar bound stands for its broadcast)', w)
-        except AssertionError as e:
+        except (AssertionError, KeyError, ValueError, TypeError, IndexError, ZeroDivisionError, AttributeError) as e:
             ctx.ob(key + '/paths', False, 'path structure', w, 'analysable', str(e))
     ctx.floor('roots analysed', done, len(roots))
     ctx.floor('implementing scalar types', len(all_types()), 22)
